@@ -168,7 +168,8 @@ Definition frontend_okP (be : bemap) (s : svc) (eps : list ep) (kd : kind) (v : 
   /\ fv_aff v = s_sticky s
   /\ flag_ok (ext_local_required kd s) (fv_flags v) FLG_EXT_LOCAL = true
   /\ flag_ok (int_local_required kd s) (fv_flags v) FLG_INT_LOCAL = true
-  /\ (has_flag (fv_flags v) FLG_MAGLEV = true -> s_maglev s = true).
+  /\ (has_flag (fv_flags v) FLG_MAGLEV = true -> s_maglev s = true)
+  /\ has_flag (fv_flags v) FLG_EXCLUDE = s_exclude s.
 
 Definition final_exactP (npips : list N) (st : state) (fe : femap) (be : bemap) : Prop :=
   (forall s eps k kd, In (s, eps) st -> In (k, kd) (spec_frontends npips s eps) ->
@@ -225,13 +226,13 @@ Proof.
   intros be s eps kd v H. unfold frontend_ok in H. cbv zeta in H.
   repeat (apply andb_true_iff in H; let X := fresh "X" in destruct H as [H X]).
   unfold frontend_okP. cbv zeta.
-  apply N.eqb_eq in X5. apply N.eqb_eq in X4. apply N.eqb_eq in X2.
-  apply andb_true_iff in X3. destruct X3 as [S1 S2]. apply andb_true_iff in S2. destruct S2 as [S2 S3].
+  apply N.eqb_eq in X6. apply N.eqb_eq in X5. apply N.eqb_eq in X3. apply Bool.eqb_prop in X.
+  apply andb_true_iff in X4. destruct X4 as [S1 S2]. apply andb_true_iff in S2. destruct S2 as [S2 S3].
   split; auto. split; auto. split.
   - exists (flat_map (fun o => match o with Some a => [a] | None => [] end) (listed be v)).
     split; [apply all_some; exact S1|]. split; apply same_addrs_sound; auto.
-  - split; auto. split; auto. split; auto.
-    intros F. rewrite F in X. simpl in X. exact X.
+  - split; auto. split; auto. split; auto. split; auto.
+    intros F. rewrite F in X0. simpl in X0. exact X0.
 Qed.
 
 Lemma all_spec_inv : forall npips st k kd s eps,
@@ -272,13 +273,13 @@ Qed.
 Lemma frontend_ok_complete : forall be s eps kd v,
   N.of_nat (length eps) <= COUNT_LIMIT -> frontend_okP be s eps kd v -> frontend_ok be s eps kd v = true.
 Proof.
-  intros be s eps kd v B [E1 [E2 [[addrs [L [P1 P2]]] [E3 [F1 [F2 M]]]]]]. unfold frontend_ok. cbv zeta.
+  intros be s eps kd v B [E1 [E2 [[addrs [L [P1 P2]]] [E3 [F1 [F2 [M EX]]]]]]]. unfold frontend_ok. cbv zeta. rewrite EX, eqb_reflx.
   fold (listed be v). rewrite L, forallb_map_some, flat_map_some.
   rewrite (same_addrs_complete _ _ P1), (same_addrs_complete _ _ P2).
   rewrite E1 at 2. rewrite N.eqb_refl. rewrite E2 at 1. rewrite N.eqb_refl. rewrite E3, N.eqb_refl, F1, F2.
   assert (C : fv_count v <=? COUNT_LIMIT = true).
   { apply N.leb_le. rewrite E1. pose proof (wanted_length_le kd eps). lia. }
-  rewrite C. simpl. destruct (has_flag (fv_flags v) FLG_MAGLEV) eqn:F; simpl; auto.
+  rewrite C. simpl. rewrite ?andb_true_r. destruct (has_flag (fv_flags v) FLG_MAGLEV) eqn:F; simpl; auto.
 Qed.
 
 Lemma final_exactb_complete : forall npips st fe be,
@@ -319,7 +320,7 @@ Qed.
 
 Lemma frontend_exact_okP : forall be s eps kd v, frontend_exact be s eps kd v -> frontend_okP be s eps kd v.
 Proof.
-  intros be s eps kd v [served [W [C [Lc [Bk [Af [F1 [F2 M]]]]]]]]. unfold frontend_okP. cbv zeta. rewrite <- W.
+  intros be s eps kd v [served [W [C [Lc [Bk [Af [F1 [F2 [M EX]]]]]]]]]. unfold frontend_okP. cbv zeta. rewrite <- W.
   destruct (ordered_spec served) as [P _]. change (ordered served) with (ready_local served ++ ready_remote served) in P.
   set (o := ready_local served ++ ready_remote served) in *.
   split; [rewrite C, (Permutation_length P); reflexivity|].
